@@ -39,6 +39,9 @@ func runC17(r *Report) {
 				}
 			}
 		}
+		if len(muts) == 0 && isFresh(fn) {
+			continue // a newly extracted helper that only logs: its callers hold the append (as its call) and the mutation
+		}
 		if len(params) == 0 {
 			r.Unk(rv, rv+"/"+FuncKey(fn)+"/arguments", fn.Pos(), "could not trace the memstore mutation's arguments to API parameters")
 			continue
@@ -250,6 +253,8 @@ func runC17(r *Report) {
 	ruleStickyWriteError(r)
 	ruleReplayCountsEveryMutation(r)
 	ruleCloseKeepsAcknowledged(r)
+	// (a Put that has to rotate and cannot: the rotation's failure must leave the appender as it was)
+	ruleRotate(r)
 	// the string flavour's own validation returns the same sentinel
 	if fn := p.Func("simpledb.DB.Put"); fn != nil {
 		key := rd + "/simpledb.DB.Put/same-sentinel"
